@@ -180,7 +180,13 @@ Definition do_realloc (x origin : wl) (req : res) : cprog oerr :=
        match r with
        | RRealloc delta newr =>
          let x' := mkWl (w_id x) (w_node x) (w_pod x) newr in
-         e <- doc (SUpdateWorkload x') ;; Ret ((delta, x'), e)
+         e <- doc (SUpdateWorkload x') ;;
+         match e with
+         | Some _ =>
+           (* the node resource has been changed already: give the delta back *)
+           ign (doc (PRollbackRealloc (w_node x) delta)) ;;; Ret ((delta, x'), e)
+         | None => Ret ((delta, x'), e)
+         end
        | RErr e => Ret (s, Some e)
        | _ => Ret (s, Some ENatural)
        end)
@@ -275,6 +281,7 @@ Record cstate_create := mkCS {
   cs_rtoken : option nat;                       (* resourceCommit *)
   cs_plan : list (name * nat);                  (* deployMap *)
   cs_ptokens : list (name * option nat);        (* processingCommits (nil when wal.Log failed) *)
+  cs_alloc : list (name * nat);                 (* allocatedNodes, with the number of instances allocated *)
 }.
 
 (* the loop of the condition step over the plan *)
@@ -288,7 +295,7 @@ Fixpoint alloc_loop (opi : nat) (r : res) (plan : list (name * nat)) (s : cstate
     | None =>
       t <- call1 (WLog (EvProc n opi)) ;;
       let tok := match t with RToken t => Some t | _ => None end in
-      let s' := mkCS (cs_rtoken s) (cs_plan s) (cs_ptokens s ++ [(n, tok)]) in
+      let s' := mkCS (cs_rtoken s) (cs_plan s) (cs_ptokens s ++ [(n, tok)]) (cs_alloc s ++ [(n, k)]) in
       match err_of t with
       | Some e => Ret (s', Some e)
       | None =>
@@ -324,7 +331,7 @@ Fixpoint deploy_all (opi : nat) (pod : name) (r : res) (plan : list (name * nat)
 (* doCreateWorkloads.  [plan]: what the strategy returned (None = refused), nodes in
    the order the condition step visited them. Returns the messages it sent. *)
 Definition create (opi : nat) (pod : name) (r : res) (plan : option (list (name * nat))) : cprog (list msg) :=
-  res <- txn_s (mkCS None [] [], @nil (name * list nat), @nil msg)
+  res <- txn_s (mkCS None [] [] [], @nil (name * list nat), @nil msg)
     (* if: alloc resources *)
     (fun st =>
       let '(s, rb, ms) := st in
@@ -336,7 +343,7 @@ Definition create (opi : nat) (pod : name) (r : res) (plan : option (list (name 
              t <- call1 (WLog (EvAlloc (map n_name ns))) ;;
              match t with
              | RToken tok =>
-               let s1 := mkCS (Some tok) [] [] in
+               let s1 := mkCS (Some tok) [] [] [] in
                e <- doc (PGetCapacity (map n_name ns)) ;;
                match e with
                | Some e => Ret (s1, Some e)
@@ -347,7 +354,7 @@ Definition create (opi : nat) (pod : name) (r : res) (plan : option (list (name 
                  | None =>
                    match plan with
                    | None => Ret (s1, Some ENatural)
-                   | Some dm => alloc_loop opi r dm (mkCS (Some tok) dm [])
+                   | Some dm => alloc_loop opi r dm (mkCS (Some tok) dm [] [])
                    end
                  end
                end
@@ -366,9 +373,9 @@ Definition create (opi : nat) (pod : name) (r : res) (plan : option (list (name 
       Ret ((s, fst d, ms ++ snd d), match fst d with [] => None | _ => Some ENatural end)))
     (* rollback: give back resources *)
     (Some (fun st (by_cond : bool) =>
-      let '(s, rb, _) := st in
-      if by_cond then rok
-      else
+      let '(s, rb0, _) := st in
+      (* a late failure of the condition step: give back everything allocated so far *)
+      let rb := if by_cond then map (fun a => (fst a, seq_nat 0 (snd a))) (cs_alloc s) else rb0 in
         for_all rb (fun g =>
           ign (with_node_pod_locked (fst g) (fun _ => doc (PRollbackAlloc (fst g) (repeat r (length (snd g))))))) ;;;
         rok)) ;;
@@ -403,7 +410,8 @@ Definition lambda_one (stdin : bool) (lines : nat) (m : msg) : cprog unit :=
             match e2 with
             | Some _ => Ret (MLambdaErr (Some id))
             | None =>
-              send_lines id lines ;;;
+              (* with stdin the stream is forwarded byte by byte; a scripted line is two bytes *)
+              send_lines id (if stdin then (lines + lines)%nat else lines) ;;;
               c <- call1 (EWait id) ;;
               match c with
               | RCode code => Ret (MLambdaExit id code)
@@ -417,7 +425,9 @@ Definition lambda_one (stdin : bool) (lines : nat) (m : msg) : cprog unit :=
       ign (remove false [id] true) ;;;
       ign (doc (WCommit tok (EvLambda id))) ;;;
       send final
-    | _ => send (MLambdaErr (Some id))          (* returns before the removal is registered *)
+    | _ =>
+      (* the WAL entry could not be written: remove the workload, then report *)
+      ign (remove false [id] true) ;;; send (MLambdaErr (Some id))
     end
   | _ => send (MLambdaErr None)
   end.
@@ -506,7 +516,8 @@ Definition remove_node (n : name) : cprog oerr :=
     | _ => Ret (Some ENatural)
     end).
 
-(* SetNode: bypass (None = keep), memory capacity request (amount, delta?), label *)
+(* SetNode: bypass (None = keep), memory capacity request (amount, delta?), label.
+   Local state of the transaction: origin = the capacity before the change. *)
 Definition set_node (n : name) (bypass : option bool) (mem : option (Z * bool)) (label : option nat) : cprog oerr :=
   with_node_pod_locked n (fun x =>
     e <- doc (PGetInfo n) ;;
@@ -515,19 +526,29 @@ Definition set_node (n : name) (bypass : option bool) (mem : option (Z * bool)) 
     | None =>
       let x' := mkNode (n_name x) (n_pod x) (match bypass with Some b => b | None => n_bypass x end) (n_avail x)
                        (match label with Some l => l | None => n_label x end) in
-      txn (match mem with
-           | None => rok
-           | Some (m, delta) => doc (PSetCapacity n (Some m) delta)
-           end)
-          (Some (e <- doc (SUpdateNode x') ;;
+      r <- txn_s (@None res)
+          (fun s =>
+             match mem with
+             | None => Ret (s, None)
+             | Some (m, delta) =>
+               r <- call1 (PSetCapacity n (Some m) delta) ;;
+               match r with
+               | RInfo cap _ => Ret (Some cap, None)
+               | RErr e => Ret (s, Some e)
+               | _ => Ret (s, Some ENatural)
+               end
+             end)
+          (Some (fun s =>
+                 e <- doc (SUpdateNode x') ;;
                  match e with
-                 | Some e => Ret (Some e)
-                 | None => ign (doc (PGetInfo n)) ;;; rok
+                 | Some e => Ret (s, Some e)
+                 | None => ign (doc (PGetInfo n)) ;;; Ret (s, None)
                  end))
-          (Some (fun by_cond : bool =>
+          (Some (fun (s : option res) (by_cond : bool) =>
              if by_cond then rok
-             else match mem with
-                  | None => rok
-                  | Some _ => doc (PSetCapacity n None false)     (* origin is empty after a successful change *)
-                  end))
+             else match mem, s with
+                  | Some _, Some cap => doc (PRestoreCapacity n cap)
+                  | _, _ => rok
+                  end)) ;;
+      Ret (snd r)
     end).
